@@ -33,35 +33,112 @@ TRUSTED = {
 }
 
 
-_TREE_KEY = None
+_VERIF_KEY = None
+_FILE_SHA = {}
+_DEPS = {}
 
 
-def tree_key():
-    """content hash of everything a unit's verdict depends on: the repository sources under
-    verification and the verifier itself (engine, contracts, specification, lemmas)"""
-    global _TREE_KEY
-    if _TREE_KEY is None:
+def verif_key():
+    """content hash of the verifier itself (engine, contracts, specification, lemmas)"""
+    global _VERIF_KEY
+    if _VERIF_KEY is None:
         h = hashlib.sha256()
-        from pyvc.source import sources
-
-        repo = sources().repo
         files = []
-        for root in (os.path.join(repo, "cvss"),):
-            for dp, dn, fn in os.walk(root):
-                for f in sorted(fn):
-                    if f.endswith(".py"):
-                        files.append(os.path.join(dp, f))
         for sub in ("pyvc", "contracts", "spec", "lemmas"):
             for dp, dn, fn in os.walk(os.path.join(VERIF, sub)):
                 for f in sorted(fn):
                     if f.endswith((".py", ".json")):
                         files.append(os.path.join(dp, f))
         for f in sorted(files):
-            h.update(f.encode())
+            h.update(os.path.relpath(f, VERIF).encode())
             with open(f, "rb") as fh:
                 h.update(fh.read())
-        _TREE_KEY = h.hexdigest()
-    return _TREE_KEY
+        _VERIF_KEY = h.hexdigest()
+    return _VERIF_KEY
+
+
+def repo_modules():
+    from pyvc.source import sources
+
+    d = os.path.join(sources().repo, "cvss")
+    return sorted(f[:-3] for f in os.listdir(d) if f.endswith(".py"))
+
+
+def repo_deps(module):
+    """the repository modules a function of `module` can depend on: the import closure read off
+    the current ASTs (a package-level import pulls in every module)"""
+    import ast
+
+    from pyvc.source import sources
+
+    if module in _DEPS:
+        return _DEPS[module]
+    src = sources()
+    allm = repo_modules()
+    seen, todo = set(), [module]
+    while todo:
+        m = todo.pop()
+        if m in seen:
+            continue
+        if m == "__init__" or m not in allm:
+            seen.update(allm)
+            break
+        seen.add(m)
+        try:
+            with open(src.path(m), "rb") as f:
+                tree = ast.parse(f.read())
+        except (OSError, SyntaxError):
+            seen.update(allm)
+            break
+        for node in ast.walk(tree):
+            if isinstance(node, ast.ImportFrom):
+                if node.level >= 1:
+                    if node.module:
+                        todo.append(node.module.split(".")[0])
+                    else:
+                        todo.extend(a.name for a in node.names)
+                elif node.module and node.module.split(".")[0] == "cvss":
+                    parts = node.module.split(".")
+                    todo.append(parts[1] if len(parts) > 1 else "__init__")
+            elif isinstance(node, ast.Import):
+                for a in node.names:
+                    parts = a.name.split(".")
+                    if parts[0] == "cvss":
+                        todo.append(parts[1] if len(parts) > 1 else "__init__")
+    _DEPS[module] = sorted(seen)
+    return _DEPS[module]
+
+
+def file_sha(path):
+    if path not in _FILE_SHA:
+        try:
+            with open(path, "rb") as f:
+                _FILE_SHA[path] = hashlib.sha256(f.read()).hexdigest()
+        except OSError:
+            _FILE_SHA[path] = "missing"
+    return _FILE_SHA[path]
+
+
+def unit_key(job):
+    """content hash of everything the verdict of one unit depends on: the verifier and the
+    repository modules in the import closure of the function's module (all modules for lemmas)"""
+    from pyvc.source import sources
+
+    kind, modname, key = job[0], job[1], job[2]
+    if kind == "contract":
+        mods = repo_deps(key[0])
+    else:
+        mods = repo_modules()
+    src = sources()
+    h = hashlib.sha256(verif_key().encode())
+    for m in mods:
+        h.update(m.encode())
+        h.update(file_sha(src.path(m)).encode())
+    return h.hexdigest()
+
+
+def tree_key():
+    return unit_key(("lemma", "", ""))
 
 
 CACHE_DIR = os.path.join(VERIF, ".cache", "units")
@@ -69,7 +146,7 @@ CACHE_DIR = os.path.join(VERIF, ".cache", "units")
 
 def cache_path(job):
     mode = "second-opinion" if os.environ.get("PYVC_SECOND_OPINION") == "1" else ""
-    k = hashlib.sha256((tree_key() + mode + json.dumps(job[:4], sort_keys=True, default=str)).encode()).hexdigest()
+    k = hashlib.sha256((unit_key(job) + mode + json.dumps(job[:4], sort_keys=True, default=str)).encode()).hexdigest()
     return os.path.join(CACHE_DIR, k[:2], k + ".json")
 
 
